@@ -1,6 +1,7 @@
 package main
 
 import (
+	"io"
 	"fmt"
 	"math"
 	"os"
@@ -235,6 +236,9 @@ func pickBackend(r *rng) string {
 	if r.chance(0.15) {
 		return "dbg"
 	}
+	if r.chance(0.08) {
+		return r.pick([]string{"vmlog", "closurelog"})
+	}
 	return backends[r.intn(4)]
 }
 
@@ -282,6 +286,11 @@ func buildEngine(spec EngineSpec, rec recFn) *yae.Expr {
 		e.UseCompiler(interp.Interp)
 	case "dbg":
 		e.UseCompiler(closure.DebugCompile)
+	case "vmlog":
+		// the engine's own logging switched on (EnableDebug): outcomes must be what they are without it
+		e.UseBytecodeCompiler().EnableDebug(io.Discard)
+	case "closurelog":
+		e.UseClosureCompiler().EnableDebug(io.Discard)
 	default:
 		panic("unknown backend " + spec.Backend)
 	}
@@ -805,6 +814,8 @@ var genericSrcs = []string{
 	"mo[\"u\"].id", "[n: l, x: l]", "get(p.b, p.a)", "[p.a, get(p.b, p.a)]", "union(lo, lo) == lo", "m == m && mi == mi",
 	"[m[\"k1\"], m[\"k2\"]] == [m[\"k1\"], m[\"k2\"]]", "string([n: x])", "print(n) == n",
 	"[print(n), print(x)]", "print(s) == print(s)", "print(o).id", "len(print(l)) + len(print(m))", "print(string(print(ls)))",
+	// empty literals (the checker annotates their nodes like any other)
+	"union(l, [])", "{a: [], b: [:], c: {}, d: n}", "len([]) + len([:]) + len(l)", "[l, []]", "if(b, [], l) == l",
 }
 var genericUserSrcs = []string{
 	"[nest(len(l)), nest(nest(len(ls)))]", "when(b, nest(1), nest(2)) + nest(when(b, 3, 4))",
